@@ -213,7 +213,7 @@ func (w *Writer) AddLog(l *LogRecord) error {
 	}
 
 	if !w.cfg.ExactLogMessage && !l.IsDeletion() {
-		l.Message = strings.TrimSpace(l.Message)
+		l.Message = strings.TrimRight(l.Message, "\n")
 		if strings.Contains(l.Message, "\n") {
 			return fmt.Errorf("reftable: log messages must be single line.")
 		}
